@@ -103,7 +103,7 @@ def gen_aggregate(rng, model, idx, pool, depth=0, anonymous=False, parent_packed
     a.size, a.align, bad, a.places = model.layout(a.kind, a.packed, a.aligned or 1, [(m['size'], m['align'], m['bf'], 1 if m['named'] else 0) for m in a.members])
     subs = [m.get('sub') or m.get('ref') for m in a.members if m.get('sub') or m.get('ref')]
     a.bad = bool(bad) or any(x.bad for x in subs)
-    a.packed_union = (a.kind == 'U' and a.packed) or any(x.packed_union for x in subs)
+    a.packed_union = False          # packed unions are honoured since 20d74ad (was the open finding C08-packed-union): model and generator treat them like everything else
     return a
 
 def leaves(a, base_off=0):
